@@ -355,7 +355,245 @@ def t_addelse(tree, rng):
     return done
 
 
-TRANSFORMS = {"flipcmp": t_flipcmp, "commute": t_commute, "reorder": t_reorder, "addelse": t_addelse, "hoist": t_hoist, "forcomp": t_forcomp, "fstr": t_fstr, "augassign": t_augassign, "ternary": t_ternary, "elif": t_elif, "swap": t_swap, "rename": t_rename, "temp": t_temp, "unelse": t_unelse, "alias": t_alias, "demorgan": t_demorgan}
+def _locals_of(fn):
+    names = {a.arg for a in fn.args.posonlyargs + fn.args.args + fn.args.kwonlyargs}
+    if fn.args.vararg:
+        names.add(fn.args.vararg.arg)
+    if fn.args.kwarg:
+        names.add(fn.args.kwarg.arg)
+    for n in ast.walk(fn):
+        if isinstance(n, ast.Name) and isinstance(n.ctx, ast.Store):
+            names.add(n.id)
+        if isinstance(n, ast.ExceptHandler) and n.name:
+            names.add(n.name)
+    return names
+
+
+def t_extract(tree, rng):
+    """extract method: the value of `return <expr>` / `x = <expr>` (a call-bearing expression without comprehension, lambda, yield, walrus)
+    moves into a new private helper of the same class (or module) that takes the locals it reads as parameters"""
+    done = False
+    counter = [0]
+    for cls in [n for n in ast.walk(tree) if isinstance(n, ast.ClassDef)] + [tree]:
+        new_defs = []
+        for fn in [n for n in cls.body if isinstance(n, (ast.FunctionDef,))]:
+            decos = [ast.unparse(d) for d in fn.decorator_list]
+            if any(isinstance(x, (ast.FunctionDef, ast.AsyncFunctionDef, ast.Lambda, ast.ClassDef, ast.Global, ast.Nonlocal)) for x in ast.walk(fn) if x is not fn):
+                continue
+            is_method = isinstance(cls, ast.ClassDef)
+            static = "staticmethod" in decos
+            if is_method and not static and not fn.args.args:
+                continue
+            recv = fn.args.args[0].arg if is_method and not static else None
+            if is_method and not static and recv not in ("self", "cls"):
+                continue
+            if any(d.endswith(".register") or d == "property" or d.endswith(".setter") or "abstract" in d for d in decos):
+                continue
+            loc = _locals_of(fn)
+            for owner in ast.walk(fn):
+                for fld in ("body", "orelse", "finalbody"):
+                    blk = getattr(owner, fld, None)
+                    if not isinstance(blk, list):
+                        continue
+                    for st in blk:
+                        if not isinstance(st, (ast.Return, ast.Assign)) or st.value is None:
+                            continue
+                        v = st.value
+                        if not any(isinstance(x, ast.Call) for x in ast.walk(v)) or isinstance(v, (ast.Name, ast.Constant)):
+                            continue
+                        if any(isinstance(x, (ast.ListComp, ast.SetComp, ast.DictComp, ast.GeneratorExp, ast.Lambda, ast.Yield, ast.YieldFrom, ast.Await, ast.NamedExpr, ast.Starred)) for x in ast.walk(v)):
+                            continue
+                        if any(isinstance(x, ast.Call) and isinstance(x.func, ast.Name) and x.func.id == "super" for x in ast.walk(v)):
+                            continue
+                        if rng.random() >= 0.4:
+                            continue
+                        reads = []
+                        for x in ast.walk(v):
+                            if isinstance(x, ast.Name) and isinstance(x.ctx, ast.Load) and x.id in loc and x.id != recv and x.id not in reads:
+                                reads.append(x.id)
+                        counter[0] += 1
+                        hname = f"_extracted_{counter[0]}"
+                        params = ([ast.arg(arg=recv)] if recv else []) + [ast.arg(arg=r) for r in reads]
+                        hdef = ast.FunctionDef(name=hname, args=ast.arguments(posonlyargs=[], args=params, kwonlyargs=[], kw_defaults=[], defaults=[]),
+                                               body=[ast.Return(value=v)], decorator_list=([ast.Name(id="classmethod", ctx=ast.Load())] if recv == "cls" else
+                                                                                           [ast.Name(id="staticmethod", ctx=ast.Load())] if is_method and static else []), returns=None, type_params=[])
+                        if is_method and static:
+                            func = ast.Attribute(value=ast.Name(id=cls.name, ctx=ast.Load()), attr=hname, ctx=ast.Load())
+                        elif recv:
+                            func = ast.Attribute(value=ast.Name(id=recv, ctx=ast.Load()), attr=hname, ctx=ast.Load())
+                        else:
+                            func = ast.Name(id=hname, ctx=ast.Load())
+                        st.value = ast.Call(func=func, args=[ast.Name(id=r, ctx=ast.Load()) for r in reads], keywords=[])
+                        new_defs.append(hdef)
+                        done = True
+        if isinstance(cls, ast.ClassDef):
+            cls.body.extend(new_defs)
+        else:
+            # module level helpers must exist before use at import time only if called at import; append at the end
+            cls.body.extend(new_defs)
+    return done
+
+
+def t_match(tree, rng):
+    """if s == 'a': A elif s == 'b': B else: C   ->   match s: case 'a': A; case 'b': B; case _: C   (literal constants only)"""
+    done = False
+
+    def chain(n):
+        arms, cur = [], n
+        subj = None
+        while isinstance(cur, ast.If):
+            t = cur.test
+            if not (isinstance(t, ast.Compare) and len(t.ops) == 1 and isinstance(t.ops[0], ast.Eq) and isinstance(t.comparators[0], ast.Constant)
+                    and isinstance(t.comparators[0].value, (str, int)) and not isinstance(t.comparators[0].value, bool) and isinstance(t.left, (ast.Name, ast.Attribute))):
+                return None
+            if subj is None:
+                subj = ast.unparse(t.left)
+            elif subj != ast.unparse(t.left):
+                return None
+            arms.append((t.left, t.comparators[0], cur.body))
+            if len(cur.orelse) == 1 and isinstance(cur.orelse[0], ast.If):
+                cur = cur.orelse[0]
+            else:
+                return arms, cur.orelse
+        return None
+    for owner in ast.walk(tree):
+        for fld in ("body", "orelse", "finalbody"):
+            blk = getattr(owner, fld, None)
+            if not isinstance(blk, list):
+                continue
+            for i, st in enumerate(blk):
+                if isinstance(st, ast.If):
+                    r = chain(st)
+                    if r and len(r[0]) >= 2:
+                        arms, default = r
+                        cases = [ast.match_case(pattern=ast.MatchValue(value=c), guard=None, body=b) for _, c, b in arms]
+                        if default:
+                            cases.append(ast.match_case(pattern=ast.MatchAs(pattern=None, name=None), guard=None, body=default))
+                        blk[i] = ast.copy_location(ast.Match(subject=arms[0][0], cases=cases), st)
+                        done = True
+    return done
+
+
+def t_kwargs(tree, rng):
+    """positional arguments of calls to methods of the same class become keyword arguments"""
+    done = False
+    for cls in [n for n in ast.walk(tree) if isinstance(n, ast.ClassDef)]:
+        sigs = {}
+        for fn in cls.body:
+            if isinstance(fn, ast.FunctionDef) and not fn.args.vararg and not fn.args.posonlyargs:
+                decos = [ast.unparse(d) for d in fn.decorator_list]
+                if any(d.endswith(".register") for d in decos) or fn.name in sigs:
+                    sigs[fn.name] = None
+                    continue
+                sigs[fn.name] = [a.arg for a in fn.args.args][(0 if "staticmethod" in decos else 1):]
+        for c in ast.walk(cls):
+            if isinstance(c, ast.Call) and isinstance(c.func, ast.Attribute) and isinstance(c.func.value, ast.Name) and c.func.value.id in ("self", "cls") \
+                    and sigs.get(c.func.attr) and c.args and not any(isinstance(a, ast.Starred) for a in c.args) and len(c.args) <= len(sigs[c.func.attr]) and rng.random() < 0.6:
+                names = sigs[c.func.attr]
+                c.keywords = [ast.keyword(arg=names[i], value=a) for i, a in enumerate(c.args)] + c.keywords
+                c.args = []
+                done = True
+    return done
+
+
+def t_inline(tree, rng):
+    """x = <expr>; <next statement reads x exactly once and x is read nowhere else>   ->   the next statement with <expr> in place of x"""
+    done = False
+    for fn in funcs(tree):
+        if any(isinstance(x, (ast.FunctionDef, ast.AsyncFunctionDef, ast.Lambda, ast.ClassDef)) for x in ast.walk(fn) if x is not fn):
+            continue
+        loads, stores = {}, {}
+        for n in ast.walk(fn):
+            if isinstance(n, ast.Name):
+                d = loads if isinstance(n.ctx, ast.Load) else stores
+                d[n.id] = d.get(n.id, 0) + 1
+        for owner in ast.walk(fn):
+            for fld in ("body", "orelse", "finalbody"):
+                blk = getattr(owner, fld, None)
+                if not isinstance(blk, list):
+                    continue
+                i = 0
+                while i + 1 < len(blk):
+                    a, b = blk[i], blk[i + 1]
+                    if isinstance(a, ast.Assign) and len(a.targets) == 1 and isinstance(a.targets[0], ast.Name) and isinstance(b, (ast.Return, ast.Assign, ast.AugAssign, ast.Expr)):
+                        nm = a.targets[0].id
+                        uses = [x for x in ast.walk(b.value) if isinstance(x, ast.Name) and x.id == nm and isinstance(x.ctx, ast.Load)] if b.value is not None else []
+                        in_comp = any(isinstance(c, (ast.ListComp, ast.SetComp, ast.DictComp, ast.GeneratorExp, ast.IfExp, ast.BoolOp)) for c in ast.walk(b.value)) if b.value is not None else True
+                        if loads.get(nm, 0) == 1 and stores.get(nm, 0) == 1 and len(uses) == 1 and not in_comp and rng.random() < 0.6:
+                            class R(ast.NodeTransformer):
+                                def visit_Name(self, n):
+                                    return a.value if (n.id == nm and isinstance(n.ctx, ast.Load)) else n
+                            b.value = R().visit(b.value)
+                            del blk[i]
+                            done = True
+                            continue
+                    i += 1
+    return done
+
+
+def t_guard(tree, rng):
+    """for ...: if c: BODY   ->   for ...: if not c: continue; BODY      (the if is the whole loop body, no else)"""
+    done = False
+    for n in ast.walk(tree):
+        if isinstance(n, (ast.For, ast.While)) and len(n.body) == 1 and isinstance(n.body[0], ast.If) and not n.body[0].orelse and rng.random() < 0.7:
+            iff = n.body[0]
+            t = iff.test.operand if isinstance(iff.test, ast.UnaryOp) and isinstance(iff.test.op, ast.Not) else ast.UnaryOp(op=ast.Not(), operand=iff.test)
+            n.body = [ast.copy_location(ast.If(test=t, body=[ast.Continue()], orelse=[]), iff)] + iff.body
+            done = True
+    return done
+
+
+def t_extractblock(tree, rng):
+    """extract method for a whole compound statement: an if / for / while / with statement of a method (without return, break, continue,
+    yield at any depth) moves into a new private method; the locals it reads and writes become parameters, the ones it writes are
+    returned and re-bound at the call site (only statements all of whose written names are bound before, so nothing can be unbound)"""
+    done = False
+    counter = [0]
+    for cls in [n for n in ast.walk(tree) if isinstance(n, ast.ClassDef)]:
+        new_defs = []
+        for fn in [n for n in cls.body if isinstance(n, ast.FunctionDef)]:
+            decos = [ast.unparse(d) for d in fn.decorator_list]
+            if decos or not fn.args.args or fn.args.args[0].arg != "self":
+                continue
+            if any(isinstance(x, (ast.FunctionDef, ast.AsyncFunctionDef, ast.Lambda, ast.ClassDef, ast.Global, ast.Nonlocal, ast.Yield, ast.YieldFrom)) for x in ast.walk(fn) if x is not fn):
+                continue
+            loc = _locals_of(fn)
+            bound = {a.arg for a in fn.args.args}
+            for i, st in enumerate(list(fn.body)):
+                stores_here = {x.id for x in ast.walk(st) if isinstance(x, ast.Name) and isinstance(x.ctx, ast.Store)}
+                if isinstance(st, (ast.If, ast.For, ast.While, ast.With)) and not any(isinstance(x, (ast.Return, ast.Break, ast.Continue, ast.Try, ast.Raise)) for x in ast.walk(st)) \
+                        and not any(isinstance(x, ast.Call) and isinstance(x.func, ast.Name) and x.func.id == "super" for x in ast.walk(st)):
+                    comp_targets = {y.id for x in ast.walk(st) if isinstance(x, ast.comprehension) for y in ast.walk(x.target) if isinstance(y, ast.Name)}
+                    writes = sorted(stores_here - comp_targets)
+                    later_reads = {x.id for later in fn.body[i + 1:] for x in ast.walk(later) if isinstance(x, ast.Name) and isinstance(x.ctx, ast.Load)}
+                    out_names = [w for w in writes if w in later_reads]
+                    if all(w in bound for w in out_names) and rng.random() < 0.5:
+                        reads = []
+                        for x in ast.walk(st):
+                            if isinstance(x, ast.Name) and x.id in loc and x.id != "self" and x.id not in comp_targets and x.id not in reads and (x.id in bound):
+                                reads.append(x.id)
+                        counter[0] += 1
+                        hname = f"_extracted_block_{counter[0]}"
+                        body = [st]
+                        if out_names:
+                            body.append(ast.Return(value=ast.Tuple(elts=[ast.Name(id=w, ctx=ast.Load()) for w in out_names], ctx=ast.Load()) if len(out_names) > 1 else ast.Name(id=out_names[0], ctx=ast.Load())))
+                        hdef = ast.FunctionDef(name=hname, args=ast.arguments(posonlyargs=[], args=[ast.arg(arg="self")] + [ast.arg(arg=r) for r in reads], kwonlyargs=[], kw_defaults=[], defaults=[]),
+                                               body=body, decorator_list=[], returns=None, type_params=[])
+                        call = ast.Call(func=ast.Attribute(value=ast.Name(id="self", ctx=ast.Load()), attr=hname, ctx=ast.Load()), args=[ast.Name(id=r, ctx=ast.Load()) for r in reads], keywords=[])
+                        if out_names:
+                            tgt = ast.Tuple(elts=[ast.Name(id=w, ctx=ast.Store()) for w in out_names], ctx=ast.Store()) if len(out_names) > 1 else ast.Name(id=out_names[0], ctx=ast.Store())
+                            new_st = ast.Assign(targets=[tgt], value=call)
+                        else:
+                            new_st = ast.Expr(value=call)
+                        fn.body[i] = ast.copy_location(new_st, st)
+                        new_defs.append(hdef)
+                        done = True
+                bound |= stores_here if not isinstance(st, (ast.If, ast.For, ast.While, ast.With, ast.Try)) else set()
+        cls.body.extend(new_defs)
+    return done
+
+
+TRANSFORMS = {"extractblock": t_extractblock, "extract": t_extract, "match": t_match, "kwargs": t_kwargs, "inline": t_inline, "guard": t_guard, "flipcmp": t_flipcmp, "commute": t_commute, "reorder": t_reorder, "addelse": t_addelse, "hoist": t_hoist, "forcomp": t_forcomp, "fstr": t_fstr, "augassign": t_augassign, "ternary": t_ternary, "elif": t_elif, "swap": t_swap, "rename": t_rename, "temp": t_temp, "unelse": t_unelse, "alias": t_alias, "demorgan": t_demorgan}
 
 
 class _All:
